@@ -1,4 +1,4 @@
-; requires: strings cursor
+; requires: strings cursor keys
 ; Ghost state of the store.Store / Tx / Cursor interface contract (DESIGN.md section 5.1).
 ; Transactions and cursors are identified by their interface value.
 ; ghost: txState (Array Val Int)
@@ -48,3 +48,7 @@
 ; ghost: seen (Array Str Int)
 ; how many times a scan was cut short by a consumer asking to stop (exactness of a scan is stated for uncut scans)
 ; ghost: cuts Int
+; kcount[tx][c]: how many document keys of collection c the transaction sees (C06, C09: the stored Size follows it).
+; A 64-bit counter like the stored Size (Go int). Maintained by Tx.Set / Tx.Delete: +1 for a document key that was absent, -1 for one that was present.
+; ghost: kcount (Array Val (Array Str (_ BitVec 64)))
+; ghost: cmCount (Array Str (_ BitVec 64))
